@@ -958,6 +958,19 @@ def random_op(attr, rng, n, malformed=False):
     return ["without", v, "_", if_, inplace]
 
 
+def _no_key_keyword_on_foreign_object(attr, op):
+    """The model names the key-like keyword after the ELEMENT class's attribute (`b` of Sp, `k` of KS / KI). On an
+    instance of ANOTHER spec class (an ill-typed element, rejected afterwards in any case) that name is an unmanaged
+    attribute which the real code sets without a type check (ValueError later) where the model type-checks it
+    (TypeError now). Both classes of error are what C03 allows; the combination is left out (docs/C06.md, not modelled)."""
+    good, bad = NEWITEMS[attr]
+    pos = {"with": 1, "update": 2}.get(op[0])
+    if pos is not None and op[pos] in bad and isinstance(op[pos], str) and op[pos].startswith("o") and op[4] != "_":
+        op = list(op)
+        op[4] = "_"
+    return op
+
+
 def random_sequence(attr, rng, maxlen=4, malformed=False):
     cs = contents(attr, 3)
     init = rng.choice(cs)
@@ -965,7 +978,7 @@ def random_sequence(attr, rng, maxlen=4, malformed=False):
     n = len(init or [])
     steps = [["new", init]]
     for _ in range(rng.randint(1, maxlen)):
-        steps.append(random_op(attr, rng, n + 2, malformed))
+        steps.append(_no_key_keyword_on_foreign_object(attr, random_op(attr, rng, n + 2, malformed)))
     return {"attr": attr, "holder": holder, "steps": steps}
 
 
